@@ -70,9 +70,11 @@ VARIABLES sc,        \* the scenario [i, a |-> file, b |-> file, tab |-> its def
           cbPending, \* a peer-change callback goroutine has been started and not yet run
           gauge,     \* last value of the unique_dynsampler_count gauge
           tainted,   \* ghost: some sampler received an instance of another definition
+          touched,   \* ghost: updatePeerCounts has run since the registry was last cleared (splits
+                     \* states by a piece of history that goal bookkeeping may depend on)
           act
 
-vars == <<sc, nchg, reloadSig, toSignal, pending, local, reg, epoch, peers, peerCount, cbPending, gauge, tainted, act>>
+vars == <<sc, nchg, reloadSig, toSignal, pending, local, reg, epoch, peers, peerCount, cbPending, gauge, tainted, touched, act>>
 
 WSeq == SubSeq(<<"w1", "w2", "w3">>, 1, NW)
 Workers == {WSeq[i] : i \in 1..NW}
@@ -96,13 +98,15 @@ IsTput(t) == t \in TputTypes
 HasDyn(t) == t \in TputTypes \cup DynTypes
 
 \* v-th variation of a leaf: 0 identical, 1 and 2 a tuning parameter, 3 UseClusterSize,
-\* 4 the field list, 5 the rate/goal
+\* 4 the field list, 5 the rate/goal, 6 tuning variant 3 = "awkward" values (durations that
+\* are not multiples of each other, a one-key table, weights near the ends of their range)
 Vary(l, v) == CASE v = 0 -> l
                 [] v = 1 -> [l EXCEPT !.n = 1]
                 [] v = 2 -> [l EXCEPT !.n = 2]
                 [] v = 3 -> [l EXCEPT !.u = ~l.u]
                 [] v = 4 -> [l EXCEPT !.f = "g"]
                 [] v = 5 -> [l EXCEPT !.g = IF l.g = 2 THEN 10 ELSE 2]
+                [] v = 6 -> [l EXCEPT !.n = IF l.n = 3 THEN 0 ELSE 3]
 
 \* the names of the destinations and the prefix strings GetDownstreamSampler derives
 \* from them ("rules:<name>:")
@@ -139,26 +143,35 @@ AliasScenario(t) ==
    rpfx  |-> [e1 |-> "rules:e1:", e2 |-> "rules:rules:e1::"]]
 
 Base(t) == Leaf(t, 10, FALSE, 0, "f")
+Awk(t)  == Leaf(t, 10, FALSE, 3, "f")
+
+\* exactly one sampler with UseClusterSize in either file (and nothing else that is created
+\* together with it), with awkward tuning values
+Solo(t, g) ==
+  [a |-> [e1 |-> Top(Leaf(t, g, TRUE, 3, "f")), e2 |-> Default],
+   b |-> [e1 |-> Top(Leaf(t, g, TRUE, 3, "f")), e2 |-> Det(2)]] @@ Plain
 
 Scenarios ==
   CASE Family = "c12-quick" ->
-         {PairScenario(Base("tt"), 1), PairScenario(Base("wt"), 3), AliasScenario("dy")}
+         {PairScenario(Base("tt"), 1), PairScenario(Awk("wt"), 3), AliasScenario("dy")}
     [] Family = "c12-full" ->
          {PairScenario(Base(t), v) : t \in TputTypes \cup DynTypes, v \in {1, 2, 4}}
-         \cup {PairScenario(Base(t), 3) : t \in TputTypes}
-         \cup {PairScenario(Base("tt"), 0), PairScenario(Base("ed"), 0), PairScenario(Base("et"), 5), DetScenario}
+         \cup {PairScenario(Awk(t), 3) : t \in TputTypes}
+         \cup {PairScenario(Awk(t), 0) : t \in TputTypes \cup DynTypes}
+         \cup {PairScenario(Base("tt"), 0), PairScenario(Base("ed"), 6), PairScenario(Base("et"), 5), DetScenario}
          \cup {AliasScenario(t) : t \in {"tt", "dy"}}
     [] Family = "c13-quick" ->
-         {MixByDest("tt", 1), MixByRule("wt", 2), MixCollide("et", 10)}
+         {MixByDest("tt", 1), MixByRule("wt", 2), MixCollide("et", 10), Solo("wt", 10)}
     [] Family = "c13-full" ->
          {MixByDest(t, g) : t \in TputTypes, g \in {1, 2, 10}}
          \cup {MixByRule(t, g) : t \in TputTypes, g \in {1, 2, 10}}
          \cup {MixCollide(t, g) : t \in TputTypes, g \in {1, 2, 10}}
+         \cup {Solo(t, g) : t \in TputTypes, g \in {2, 10}}
     [] Family = "collect-quick" ->
-         {PairScenario(Base("tt"), 1), MixCollide("et", 10)}
+         {PairScenario(Awk("wt"), 1), MixCollide("et", 10)}
     [] Family = "collect-full" ->
-         {PairScenario(Base("tt"), 1), PairScenario(Base("dy"), 4), MixCollide("et", 10), MixByDest("wt", 2),
-          AliasScenario("ed")}
+         {PairScenario(Base("tt"), 1), PairScenario(Awk("wt"), 0), PairScenario(Base("dy"), 4), MixCollide("et", 10),
+          MixByDest("wt", 2), AliasScenario("ed")}
 
 DSeq == <<"e1", "e2">>
 ND == Len(DSeq)
@@ -245,7 +258,7 @@ Init == /\ sc \in {FullScenario(i) : i \in 1..Len(ScenarioSeq)}
         /\ local = [w \in Workers |-> [d \in Dests |-> Uncached]]
         /\ reg = {} /\ epoch = 0
         /\ peers = 1 /\ peerCount = 1 /\ cbPending = FALSE
-        /\ gauge = 0 /\ tainted = FALSE
+        /\ gauge = 0 /\ tainted = FALSE /\ touched = FALSE
         /\ act = [name |-> "Init"]
 
 \* CollectorWorker.makeDecision for a trace of destination d: use the cached sampler
@@ -255,7 +268,7 @@ Init == /\ sc \in {FullScenario(i) : i \in 1..Len(ScenarioSeq)}
 Decide(w, d) ==
   IF local[w][d].c
   THEN /\ CachedDecide
-       /\ UNCHANGED <<sc, nchg, reloadSig, toSignal, pending, local, reg, epoch, peers, peerCount, cbPending, gauge, tainted>>
+       /\ UNCHANGED <<sc, nchg, reloadSig, toSignal, pending, local, reg, epoch, peers, peerCount, cbPending, gauge, tainted, touched>>
        /\ act' = [name |-> "Decide", w |-> w, d |-> d]
   ELSE LET b == Build(d, File[d], 1, [r |-> reg, s |-> <<>>, dev |-> FALSE])
        IN /\ local' = [local EXCEPT ![w][d] = [c |-> TRUE, s |-> b.s]]
@@ -263,6 +276,7 @@ Decide(w, d) ==
           /\ peerCount' = peers
           /\ gauge' = Cardinality(b.r)
           /\ tainted' = (tainted \/ b.dev)
+          /\ touched' = TRUE
           /\ UNCHANGED <<sc, nchg, reloadSig, toSignal, pending, epoch, peers, cbPending>>
           /\ act' = IF b.dev THEN [name |-> "Decide", w |-> w, d |-> d, dev |-> "key-collision"]
                              ELSE [name |-> "Decide", w |-> w, d |-> d]
@@ -275,7 +289,7 @@ ConfigChange ==
   /\ sc.a # sc.b
   /\ nchg' = nchg + 1
   /\ reloadSig' = TRUE
-  /\ UNCHANGED <<sc, toSignal, pending, local, reg, epoch, peers, peerCount, cbPending, gauge, tainted>>
+  /\ UNCHANGED <<sc, toSignal, pending, local, reg, epoch, peers, peerCount, cbPending, gauge, tainted, touched>>
   /\ act' = [name |-> "ConfigChange"]
 
 \* InMemCollector.monitor takes the signal; reloadConfigs: ClearDynsamplers ...
@@ -285,6 +299,7 @@ MonitorClear ==
   /\ reg' = {}
   /\ epoch' = epoch + 1
   /\ toSignal' = 1
+  /\ touched' = FALSE
   /\ UNCHANGED <<sc, nchg, pending, local, peers, peerCount, cbPending, gauge, tainted>>
   /\ act' = [name |-> "MonitorClear"]
 
@@ -293,7 +308,7 @@ MonitorSignal ==
   /\ toSignal > 0
   /\ pending' = [pending EXCEPT ![WSeq[toSignal]] = TRUE]
   /\ toSignal' = IF toSignal = NW THEN 0 ELSE toSignal + 1
-  /\ UNCHANGED <<sc, nchg, reloadSig, local, reg, epoch, peers, peerCount, cbPending, gauge, tainted>>
+  /\ UNCHANGED <<sc, nchg, reloadSig, local, reg, epoch, peers, peerCount, cbPending, gauge, tainted, touched>>
   /\ act' = [name |-> "MonitorSignal"]
 
 \* CollectorWorker.collect: case <-cl.reload: clear(cl.datasetSamplers)
@@ -301,7 +316,7 @@ WorkerReload(w) ==
   /\ pending[w]
   /\ pending' = [pending EXCEPT ![w] = FALSE]
   /\ local' = [local EXCEPT ![w] = [d \in Dests |-> Uncached]]
-  /\ UNCHANGED <<sc, nchg, reloadSig, toSignal, reg, epoch, peers, peerCount, cbPending, gauge, tainted>>
+  /\ UNCHANGED <<sc, nchg, reloadSig, toSignal, reg, epoch, peers, peerCount, cbPending, gauge, tainted, touched>>
   /\ act' = [name |-> "WorkerReload", w |-> w]
 
 \* ConfigChange ; MonitorClear ; MonitorSignal (for every worker) as one step: the monitor
@@ -314,6 +329,7 @@ Reload ==
   /\ reg' = {}
   /\ epoch' = epoch + 1
   /\ pending' = [w \in Workers |-> TRUE]
+  /\ touched' = FALSE
   /\ UNCHANGED <<sc, reloadSig, toSignal, local, peers, peerCount, cbPending, gauge, tainted>>
   /\ act' = [name |-> "Reload"]
 
@@ -322,7 +338,7 @@ PeersChanged(n) ==
   /\ n # peers
   /\ peers' = n
   /\ cbPending' = TRUE
-  /\ UNCHANGED <<sc, nchg, reloadSig, toSignal, pending, local, reg, epoch, peerCount, gauge, tainted>>
+  /\ UNCHANGED <<sc, nchg, reloadSig, toSignal, pending, local, reg, epoch, peerCount, gauge, tainted, touched>>
   /\ act' = [name |-> "PeersChanged", n |-> n]
 
 \* the callback goroutine runs SamplerFactory.updatePeerCounts
@@ -331,6 +347,7 @@ PeerCallback ==
   /\ cbPending' = FALSE
   /\ peerCount' = peers
   /\ reg' = Rescale(reg, peers)
+  /\ touched' = TRUE
   /\ UNCHANGED <<sc, nchg, reloadSig, toSignal, pending, local, epoch, peers, gauge, tainted>>
   /\ act' = [name |-> "PeerCallback"]
 
@@ -350,7 +367,7 @@ Spec == Init /\ [][Next]_vars
 
 TypeOK ==
   /\ nchg \in 0..MaxChanges /\ epoch \in 0..MaxChanges
-  /\ reloadSig \in BOOLEAN /\ cbPending \in BOOLEAN /\ tainted \in BOOLEAN
+  /\ reloadSig \in BOOLEAN /\ cbPending \in BOOLEAN /\ tainted \in BOOLEAN /\ touched \in BOOLEAN
   /\ toSignal \in 0..NW
   /\ pending \in [Workers -> BOOLEAN]
   /\ peers \in PeerCounts \cup {1} /\ peerCount \in PeerCounts \cup {1}
@@ -457,12 +474,12 @@ Hid == [ sci  |-> sc.i, nchg |-> nchg, rs |-> B(reloadSig), ts |-> toSignal,
                      LET c == local[WSeq[i]][DSeq[j]] IN [x \in 1..Len(c.s) |-> c.s[x].l]]],
          reg  |-> {<<e.cr, B(e.scaled), e.goal>> : e \in reg},
          ep   |-> epoch, peers |-> peers, pc |-> peerCount, cb |-> B(cbPending), tn |-> B(tainted),
-         gauge |-> gauge ]
+         gauge |-> gauge, tch |-> B(touched) ]
 
 Params == [ workers |-> WSeq, dests |-> DSeq,
             scenarios |-> [i \in 1..Len(ScenarioSeq) |-> FullScenario(i)],
             faithful |-> Faithful, shareIdentical |-> ShareIdentical ]
 ASSUME PrintT(ToJson([params |-> Params]))
 Dump == PrintT(ToJson([fa |-> act.name, act |-> act', fabs |-> Abs, fhid |-> Hid, tabs |-> Abs', thid |-> Hid']))
-View == <<sc, nchg, reloadSig, toSignal, pending, local, reg, epoch, peers, peerCount, cbPending, gauge, tainted>>
+View == <<sc, nchg, reloadSig, toSignal, pending, local, reg, epoch, peers, peerCount, cbPending, gauge, tainted, touched>>
 =============================================================================
